@@ -48,3 +48,13 @@ claim('C15', 'other',
       _TB + '; transcendental functions are uninterpreted with exp2/log2, exp10/log10 inverse axioms; decimal literals '
       'denote their decimal value and 1/12, 1/440 their rationals.',
       'symbolic execution of the real kernels/composition classes + SMT validity per law', 'DESIGN.md 3/C15')
+
+claim('C19', 'other',
+      'Layout of Env._envgen_format (initial level, count, release/loop node or -99, per-segment level/time/shape '
+      'number/curvature with wrap indexing; every shape name against an independent server table), the documented '
+      'breakpoints of the 11 standard constructors, and client-side evaluation (_at == level at each breakpoint, '
+      'between the neighbouring levels inside a segment for all 9 shape kinds, last level afterwards) are z3 validity '
+      'queries over the terms computed by the real Env methods for symbolic levels, times, curvatures and evaluation '
+      'time; segment counts, curve-spec kinds and node options are explored completely up to the stated bound.',
+      _TB + '; exp/sin/cos/sqrt/cbrt/pow are uninterpreted (Ackermannised) with the listed axioms.',
+      'symbolic execution of the real Env methods + SMT validity (QF_NRA, nlsat retry)', 'DESIGN.md 3/C19')
